@@ -4,6 +4,7 @@ import (
 	"bytes"
 	"encoding/json"
 	"fmt"
+	"math/big"
 	"strings"
 
 	"github.com/gcash/bchutil/base58"
@@ -397,6 +398,43 @@ func runC07(c *mc.Ctx) {
 		c07EvalB58Bytes(w, c07Bytes{Fn: "b58", Hex: mc.Hex(longs[i])})
 	})
 	c.Sample("b58bytes", c07Bytes{Fn: "b58", Hex: "0001"})
+	// numbers with a SHAPE in base 58 or base 256, at sizes no address has: 58^k - 1, 58^k, 58^k + 1
+	// (a digit string of all 'z', or '2' followed by '1's - a conversion that works in groups of digits
+	// or splits the number goes wrong on long runs of zero digits) for every k up to 1300 (thorough
+	// 3000 in steps), a*58^k + b*58^j for sparse pairs, 2^(8m) - 1 and 2^(8m) for every m up to 900
+	{
+		var shaped [][]byte
+		one := big.NewInt(1)
+		b58k := big.NewInt(1)
+		maxK := 1300
+		var pows []*big.Int
+		for k := 0; k <= mc.Pick(c, maxK, 3000); k++ {
+			pows = append(pows, new(big.Int).Set(b58k))
+			if k <= maxK || k%13 == 0 {
+				shaped = append(shaped, new(big.Int).Sub(b58k, one).Bytes(), b58k.Bytes(), new(big.Int).Add(b58k, one).Bytes())
+			}
+			b58k.Mul(b58k, big.NewInt(58))
+		}
+		for k := 20; k < len(pows); k += 37 {
+			for _, j := range []int{0, 1, k / 2, k - 1, k - 439, k - 440, k - 441, k - 10, k - 11} {
+				if j < 0 || j >= k {
+					continue
+				}
+				v := new(big.Int).Mul(pows[k], big.NewInt(7))
+				v.Add(v, new(big.Int).Mul(pows[j], big.NewInt(5)))
+				shaped = append(shaped, v.Bytes())
+			}
+		}
+		for m := 1; m <= 900; m++ {
+			p2 := new(big.Int).Lsh(one, uint(8*m))
+			shaped = append(shaped, new(big.Int).Sub(p2, one).Bytes(), p2.Bytes())
+		}
+		c.Space("base58 byte strings whose value is 58^k-1, 58^k, 58^k+1, 7*58^k+5*58^j, 2^(8m)-1, 2^(8m)", int64(len(shaped)))
+		c.ParFor(int64(len(shaped)), func(w *mc.W, i int64) {
+			w.State()
+			c07EvalB58Bytes(w, c07Bytes{Fn: "b58", Hex: mc.Hex(shaped[i])})
+		})
+	}
 
 	// 2. Base58 strings: length 1 over all 256 byte values; lengths <= 3 over alphabet + foreign.
 	salpha := []byte(ref.B58Alphabet)
